@@ -426,7 +426,8 @@ func symGap(label string) string {
 	return string([]byte{g})
 }
 
-// HarnessC01Layout: whitespace, newlines and redundant parentheses never change the result.
+// HarnessC01Layout: whitespace, newlines and redundant parentheses never change the result. Every token gap holds
+// the baseline spacing (nothing or one blank) except two chosen gaps, which hold a symbolic whitespace byte each.
 func HarnessC01Layout() {
 	e := c01Env{a: vInt64("a"), b: vInt64("b"), c: vInt64("c")}
 	data := map[string]any{"a": e.a, "b": e.b, "c": e.c}
@@ -434,11 +435,29 @@ func HarnessC01Layout() {
 	if vChoice("parens", 2) == 1 {
 		toks = []string{"(", "(", "a", ")", ")", "+", "(", "b", "*", "c", ")"}
 	}
-	src := "{{"
-	for _, t := range toks {
-		src += symGap("gap") + t
+	base := []string{"", " "}[vChoice("baseline", 2)]
+	g1 := vChoice("gap1", len(toks)+1)
+	g2 := vChoice("gap2", len(toks)+1)
+	ws := func(label string) string {
+		g := vByte(label)
+		vAssume(g == ' ' || g == '\t' || g == '\n' || g == '\r')
+		return string([]byte{g})
 	}
-	src += symGap("gap") + "}}"
+	src := "{{"
+	for i := 0; i <= len(toks); i++ {
+		switch {
+		case i == g1:
+			src += ws("ws1")
+		case i == g2:
+			src += ws("ws2") + base
+		default:
+			src += base
+		}
+		if i < len(toks) {
+			src += toks[i]
+		}
+	}
+	src += "}}"
 	obj, parsed := evalLast(src, data)
 	vCover("evaluated")
 	checkAgainst(obj, parsed, rI(e.a+e.b*e.c), "layout")
